@@ -29,7 +29,9 @@ type eventSpec struct {
 var validShapes = []string{"none", "order", "odocname", "secret", "cudnew", "cudupd", "cuddeact", "sync-order", "sync-cud"}
 var invalidShapes = []string{"bad-order", "bad-field", "bad-secret", "unknown", "nullname", "corrupted"}
 
-func (s eventSpec) corrupted() bool { return s.Shape == "corrupted" }
+// probe shapes (corpus only): "corrupted-big" = sys.Corrupted with 70000 original bytes (a row too large
+// for the storage cache), "unknown-long" = an unknown command name of 70000 bytes (build error text and original name above 65535 bytes)
+func (s eventSpec) corrupted() bool { return s.Shape == "corrupted" || s.Shape == "corrupted-big" }
 
 func strOf(seed uint64, salt int) string {
 	switch (seed + uint64(salt)) % 6 {
@@ -144,10 +146,17 @@ func (r *rig) build(s eventSpec, bases map[uint64]*baseDoc) (istructs.IRawEvent,
 		"none": cmdNone, "order": cmdOrder, "odocname": qnOrder, "secret": cmdSecret, "cudnew": istructs.QNameCommandCUD,
 		"cudupd": istructs.QNameCommandCUD, "cuddeact": istructs.QNameCommandCUD, "sync-order": cmdOrder, "sync-cud": istructs.QNameCommandCUD,
 		"bad-order": cmdOrder, "bad-field": cmdNone, "bad-secret": cmdSecret, "unknown": qnUnknown, "nullname": appdef.NullQName,
-		"corrupted": istructs.QNameForCorruptedData,
+		"corrupted": istructs.QNameForCorruptedData, "corrupted-big": istructs.QNameForCorruptedData, "unknown-long": appdef.NewQName("test", strings.Repeat("x", 70000)),
 	}[s.Shape]
+	evBytes := eventBytes(seed)
+	if s.Shape == "corrupted-big" {
+		evBytes = make([]byte, 70000)
+		for i := range evBytes {
+			evBytes[i] = byte(seed + uint64(i)*31 + uint64(i/251))
+		}
+	}
 	gp := istructs.GenericRawEventBuilderParams{
-		EventBytes: eventBytes(seed), HandlingPartition: istructs.PartitionID(s.Part), PLogOffset: istructs.Offset(s.POff),
+		EventBytes: evBytes, HandlingPartition: istructs.PartitionID(s.Part), PLogOffset: istructs.Offset(s.POff),
 		Workspace: istructs.WSID(s.WS), WLogOffset: istructs.Offset(s.WOff), QName: name, RegisteredAt: regTime(seed),
 	}
 	var bld istructs.IRawEventBuilder
@@ -159,7 +168,7 @@ func (r *rig) build(s eventSpec, bases map[uint64]*baseDoc) (istructs.IRawEvent,
 		bld = r.app.Events().GetNewRawEventBuilder(istructs.NewRawEventBuilderParams{GenericRawEventBuilderParams: gp})
 	}
 	switch s.Shape {
-	case "none", "unknown", "nullname", "corrupted":
+	case "none", "unknown", "nullname", "corrupted", "corrupted-big", "unknown-long":
 	case "order", "odocname":
 		fillOrder(bld.ArgumentObjectBuilder(), seed, 1, false)
 		if seed%5 == 2 { // an order that also creates a document
@@ -436,11 +445,17 @@ func (d *dumper) object(o istructs.IObject) (text, coq string) {
 }
 
 type eventDump struct {
-	Text   string
-	Coq    string
-	Digest uint64
-	// digest of the text without the ICUDRow.IsActivated/IsDeactivated flags (to recognise C02-F3)
+	// Text: everything the accessors show; StoredText: the same for the stored form of the event
+	// (an event that is not valid keeps only its error record, with the message cut to 65535 bytes)
+	Text, StoredText string
+	Coq              string
+	Digest           uint64
+	StoredDigest     uint64
+	// digest of Text without the ICUDRow.IsActivated/IsDeactivated flags (to recognise C02-F3)
 	DigestNoFlags uint64
+	// why Digest != StoredDigest: "", "F4" (argument objects / CUD rows of an invalid event), "F6"
+	// (error text of 65535 bytes or more), "F4+F6"
+	Cause string
 }
 
 var flagsRe = regexp.MustCompile(` act=(true|false) deact=(true|false)`)
@@ -459,67 +474,94 @@ func nlist(xs []uint64) string {
 	return kit.List(items)
 }
 
-func (r *rig) dump(ev istructs.IDbEvent) (eventDump, error) {
+const shortStringMax = 0xFFFF
+
+func (r *rig) dump(ev istructs.IDbEvent) (res eventDump, err error) {
+	defer func() {
+		if p := recover(); p != nil {
+			err = fmt.Errorf("panic while reading the event through its accessors: %v", p)
+		}
+	}()
 	d := &dumper{r: r}
-	var sb strings.Builder
 	raw, isRaw := ev.(istructs.IRawEvent)
 	if !isRaw {
 		return eventDump{}, fmt.Errorf("event %T does not expose its log position", ev)
 	}
 	e := ev.Error()
 	valid := e.ValidEvent()
-	fmt.Fprintf(&sb, "name=%v part=%d poff=%d ws=%d woff=%d reg=%d sync=%v", ev.QName(), raw.HandlingPartition(), raw.PLogOffset(),
+	head := fmt.Sprintf("name=%v part=%d poff=%d ws=%d woff=%d reg=%d sync=%v", ev.QName(), raw.HandlingPartition(), raw.PLogOffset(),
 		raw.Workspace(), raw.WLogOffset(), ev.RegisteredAt(), ev.Synced())
 	if ev.Synced() {
-		fmt.Fprintf(&sb, " dev=%d syncat=%d", ev.DeviceID(), ev.SyncedAt())
+		head += fmt.Sprintf(" dev=%d syncat=%d", ev.DeviceID(), ev.SyncedAt())
 	}
-	fmt.Fprintf(&sb, " valid=%v", valid)
+	head += fmt.Sprintf(" valid=%v", valid)
 	storedQName := ev.QName()
 	unl := raw.ArgumentUnloggedObject()
 	hasUnl := unl != nil && unl.QName() != appdef.NullQName
-	argT, argC := "null[]", "(Obj (mkRow 0 0 0 0 true []) [])"
-	unlT, unlC := argT, argC
+	const nullT, nullC = "null[]", "(Obj (mkRow 0 0 0 0 true []) [])"
+	unlT, unlC := nullT, nullC
 	var creates, updates []string
 	var cudTexts []string
 	errStr, errName := "", ""
 	var errBytes []byte
+	errT, errStoredT := "", ""
 	if !valid {
 		errStr, errName = e.ErrStr(), e.QNameFromParams().String()
-		fmt.Fprintf(&sb, " err=%q orig=%s", errStr, errName)
-		if !hasUnl {
+		if !hasUnl { // original bytes are deliberately not logged when the command has an unlogged argument
 			errBytes = e.OriginalEventBytes()
 		}
-		fmt.Fprintf(&sb, " bytes=%x", errBytes)
-	} else {
-		argT, argC = d.object(ev.ArgumentObject())
-		if hasUnl {
-			unlT, unlC = d.object(unl)
+		cut, cutName := errStr, errName
+		if len(cut) >= shortStringMax {
+			cut = cut[:shortStringMax]
 		}
-		type upd struct {
-			id        uint64
-			text, coq string
+		if len(cutName) >= shortStringMax {
+			cutName = cutName[:shortStringMax]
 		}
-		var ups []upd
-		ev.CUDs(func(c istructs.ICUDRow) bool {
-			rd := d.row(c, c.QName(), true)
-			coq := fmt.Sprintf("(mkCud %s %s %s)", rd.coq, nlist(rd.emptied), kit.Bool(c.IsActivated() || c.IsDeactivated()))
-			if c.IsNew() {
-				creates = append(creates, coq)
-				cudTexts = append(cudTexts, "new:"+rd.text)
-			} else {
-				ups = append(ups, upd{uint64(c.ID()), fmt.Sprintf("upd:%s act=%v deact=%v", rd.text, c.IsActivated(), c.IsDeactivated()), coq})
-			}
-			return true
-		})
-		sort.Slice(ups, func(i, j int) bool { return ups[i].id < ups[j].id })
-		for _, u := range ups {
-			updates = append(updates, u.coq)
-			cudTexts = append(cudTexts, u.text)
+		errT = fmt.Sprintf(" err=%q orig=%s bytes=%x", errStr, errName, errBytes)
+		errStoredT = fmt.Sprintf(" err=%q orig=%s bytes=%x", cut, cutName, errBytes)
+	}
+	argT, argC := d.object(ev.ArgumentObject())
+	if hasUnl {
+		unlT, unlC = d.object(unl)
+	}
+	type upd struct {
+		id        uint64
+		text, coq string
+	}
+	var ups []upd
+	ev.CUDs(func(c istructs.ICUDRow) bool {
+		rd := d.row(c, c.QName(), true)
+		coq := fmt.Sprintf("(mkCud %s %s %s)", rd.coq, nlist(rd.emptied), kit.Bool(c.IsActivated() || c.IsDeactivated()))
+		if c.IsNew() {
+			creates = append(creates, coq)
+			cudTexts = append(cudTexts, "new:"+rd.text)
+		} else {
+			ups = append(ups, upd{uint64(c.ID()), fmt.Sprintf("upd:%s act=%v deact=%v", rd.text, c.IsActivated(), c.IsDeactivated()), coq})
 		}
-		fmt.Fprintf(&sb, " arg=%s unl=%s cuds=%s", argT, unlT, strings.Join(cudTexts, ","))
+		return true
+	})
+	sort.Slice(ups, func(i, j int) bool { return ups[i].id < ups[j].id })
+	for _, u := range ups {
+		updates = append(updates, u.coq)
+		cudTexts = append(cudTexts, u.text)
 	}
 	if d.err != nil {
 		return eventDump{}, d.err
+	}
+	body := fmt.Sprintf(" arg=%s unl=%s cuds=%s", argT, unlT, strings.Join(cudTexts, ","))
+	text := head + errT + body
+	stored := text
+	cause := ""
+	if !valid {
+		stored = head + errStoredT + fmt.Sprintf(" arg=%s unl=%s cuds=", nullT, nullT)
+		var cs []string
+		if argT != nullT || unlT != nullT || len(cudTexts) > 0 {
+			cs = append(cs, "F4")
+		}
+		if len(errStr) >= shortStringMax {
+			cs = append(cs, "F6")
+		}
+		cause = strings.Join(cs, "+")
 	}
 	syncPart := "0 0"
 	if ev.Synced() {
@@ -532,6 +574,6 @@ func (r *rig) dump(ev istructs.IDbEvent) (eventDump, error) {
 	if d.err != nil {
 		return eventDump{}, d.err
 	}
-	text := sb.String()
-	return eventDump{Text: text, Coq: coq, Digest: digest(text), DigestNoFlags: digest(flagsRe.ReplaceAllString(text, ""))}, nil
+	return eventDump{Text: text, StoredText: stored, Coq: coq, Digest: digest(text), StoredDigest: digest(stored),
+		DigestNoFlags: digest(flagsRe.ReplaceAllString(text, "")), Cause: cause}, nil
 }
